@@ -23,7 +23,7 @@ func TestCoalescingExpiryRacesAdd(t *testing.T) {
 	sec := vk.Sec("CoalescingExpiryRacesAdd")
 	for _, cp := range []int{0, 3} {
 		for _, at := range []string{"end", "end+1ns", "end-1ns"} {
-			name := fmt.Sprintf("coalescing.expiry-races-add{cap=%d step-to=%s rounds=%d}", cp, at, vk.Pick(300, 6000))
+			name := fmt.Sprintf("coalescing.expiry-races-add{cap=%d step-to=%s rounds=%d}", cp, at, vk.Pick(1500, 12000))
 			var errs vk.Errs
 			berr := vk.Bubble(t, name, func() {
 				init, max := 10*time.Millisecond, 40*time.Millisecond
@@ -59,7 +59,7 @@ func TestCoalescingExpiryRacesAdd(t *testing.T) {
 					}
 				}()
 				synctest.Wait()
-				for round := 0; round < vk.Pick(300, 6000) && errs.Err() == nil; round++ {
+				for round := 0; round < vk.Pick(1500, 12000) && errs.Err() == nil; round++ {
 					rl.Add() // idle: signalled at once, window of InitialDelay opens
 					synctest.Wait()
 					d := init
